@@ -333,22 +333,10 @@ impl Node {
     }
 
     pub fn from_str(s: &str, tree: &node_tree::NodeTree) -> Arc<Self> {
-        Self::from_str_with(s, tree, &std::collections::HashMap::new())
-    }
-
-    /// like `from_str`, for a process whose run-time nodes have been rebuilt into `dynamic`
-    pub fn from_str_with(
-        s: &str,
-        tree: &node_tree::NodeTree,
-        dynamic: &std::collections::HashMap<String, Arc<Node>>,
-    ) -> Arc<Self> {
         let data: NodeData = serde_json::from_str(s).unwrap();
         let ret = Arc::new(Self::new(&data.id, data.content, data.level));
         if let Some(node) = tree.node(&ret.id) {
             return node;
-        }
-        if let Some(node) = dynamic.get(&ret.id) {
-            return node.clone();
         }
         // for c in &data.children {
         //     if let Some(n) = tree.node(c) {
